@@ -454,6 +454,13 @@ class App:
 
             req_succeeded = False
 
+            # NOTE: Render the response that the error handler has composed
+            #   instead; should that fail as well, respond without a body.
+            try:
+                body, length = self._get_body(resp, env.get('wsgi.file_wrapper'))
+            except Exception:
+                body, length = [], 0
+
         resp_status: str = code_to_http_status(resp.status)
         status_code: int = resp.status_code
         default_media_type: Optional[str] = self.resp_options.default_media_type
